@@ -25,6 +25,7 @@ structure Tbl where
   escapes : List (Nat × List Nat)     -- writeString: rune ↦ bytes written
   unescapes : List (Nat × Nat)        -- readEscaped: byte after the backslash ↦ rune
   terminators : List Nat              -- bytes that may follow a number (0 = end of input)
+  jsonKeysEscaped : Bool := false     -- writeMap: JSON member names go through writeString (D22, JSON half)
 
 variable (tb : Tbl)
 
@@ -122,7 +123,7 @@ def writeMembers (sdl : Bool) (d2 : Nat) (indent : Int) (noSep : Bool) : List (L
   | (k, v) :: rest =>
     (if (!sdl || decide (indent ≤ 0)) && !noSep then (',' :: (if indent = 0 then [' '] else [])) else []) ++
     (if 0 < indent then '\n' :: spaces (d2 * indent.toNat) else []) ++
-    (if sdl then k else '"' :: k ++ ['"']) ++ [':'] ++ (if 0 ≤ indent then [' '] else []) ++
+    (if sdl then k else if tb.jsonKeysEscaped then writeString tb k true else '"' :: k ++ ['"']) ++ [':'] ++ (if 0 ≤ indent then [' '] else []) ++
     writeValue sdl d2 indent v ++
     writeMembers sdl d2 indent (decide (indent < 0) && sdl && v.isCollection) rest
 end
